@@ -463,3 +463,52 @@ pub fn all() -> Vec<Scenario> {
         })
         .collect()
 }
+
+/// Runner fault scenarios on a circuit with a non-primitive (permutation) op whose executor reads
+/// its inputs through `ExecutionContext`: outcome class per scenario.
+pub fn npo_runner_faults() -> Vec<(String, String)> {
+    let mut out = Vec::new();
+    let build = |private: bool| {
+        let mut b = kb4_builder();
+        let e = if private { b.alloc_private_input("x") } else { b.public_input() };
+        let zero = b.define_const(E4::ZERO);
+        let (_id, outs) = b
+            .add_poseidon2_perm(&Poseidon2PermCall {
+                config: Poseidon2Config::KOALA_BEAR_D4_W16,
+                new_start: true,
+                merkle_path: false,
+                mmcs_bit: None,
+                mmcs_bit2: None,
+                inputs: vec![Some(e), Some(zero), Some(zero), Some(zero)],
+                out_ctl: vec![true, true],
+                return_all_outputs: false,
+                mmcs_index_sum: None,
+            })
+            .unwrap();
+        let _ = outs;
+        b.build().unwrap()
+    };
+    let classify = |r: std::thread::Result<Result<(), String>>| match r {
+        Ok(Ok(())) => "ok".to_string(),
+        Ok(Err(e)) => format!("err:{}", e.split(|c: char| !c.is_alphanumeric()).next().unwrap_or("")),
+        Err(_) => "panic".to_string(),
+    };
+    let x = E4::from(KB::from_u64(5));
+    for (name, private, provide) in [("perm_private_input_honest", true, true), ("perm_private_input_withheld", true, false),
+        ("perm_public_input_honest", false, true), ("perm_public_input_withheld", false, false)] {
+        let r = catch_unwind(AssertUnwindSafe(|| -> Result<(), String> {
+            let c = build(private);
+            let mut runner = c.runner();
+            if provide {
+                if private {
+                    runner.set_private_inputs(&[x]).map_err(|e| format!("{e:?}"))?;
+                } else {
+                    runner.set_public_inputs(&[x]).map_err(|e| format!("{e:?}"))?;
+                }
+            }
+            runner.run().map(|_| ()).map_err(|e| format!("{e:?}"))
+        }));
+        out.push((name.to_string(), classify(r)));
+    }
+    out
+}
